@@ -14,5 +14,6 @@ R == Rec[i]
 Judge == i = 0 \/
   /\ (C09_Holds(R.ts, R.serde) \/ PrintT(<<"BAD09", ToJson(i)>>))
   /\ (C16_Holds(R.ts) \/ PrintT(<<"BAD16", ToJson(i)>>))
-  /\ ((R.ts = Ts(R.pos, R.rule, R.id) /\ R.serde = Serde(R.pos, R.rule, R.id)) \/ PrintT(<<"DRIFT", ToJson(i)>>))
+  \* (records of explicit renames carry the expected name itself: nothing is converted)
+  /\ (R.verbatim \/ (R.ts = Ts(R.pos, R.rule, R.id) /\ R.serde = Serde(R.pos, R.rule, R.id)) \/ PrintT(<<"DRIFT", ToJson(i)>>))
 =============================================================================
